@@ -3,6 +3,9 @@ use crate::engine::Runner;
 pub mod alloc_sm;
 pub mod c02;
 pub mod c04;
+pub mod c06;
+pub mod c07;
+pub mod c11;
 pub mod c12;
 pub mod c13;
 pub mod c14;
@@ -25,6 +28,9 @@ pub fn registry() -> Vec<(&'static str, CheckFn)> {
     vec![
         ("C02", c02::run as CheckFn),
         ("C04", c04::run as CheckFn),
+        ("C06", c06::run as CheckFn),
+        ("C07", c07::run as CheckFn),
+        ("C11", c11::run as CheckFn),
         ("C12", c12::run as CheckFn),
         ("C13", c13::run as CheckFn),
         ("C14", c14::run as CheckFn),
